@@ -76,6 +76,8 @@ type Ext struct {
 	Body []byte
 	// RawLen, when non-zero, is written into the length field instead of 4+len(Body) padded.
 	RawLen int
+	// NoPad leaves the body unpadded (length field 4+len(Body), possibly not a multiple of 4).
+	NoPad bool
 }
 
 // Seal builds hdr (48 bytes) + fields + an authenticator that verifies under key
@@ -107,6 +109,9 @@ func Seal(hdr []byte, fields []Ext, plain []byte, key []byte, nonceSeed byte) []
 // EncodeExt encodes one extension field (body padded to a multiple of 4).
 func EncodeExt(f Ext) []byte {
 	pad := (4 - len(f.Body)%4) % 4
+	if f.NoPad {
+		pad = 0
+	}
 	l := 4 + len(f.Body) + pad
 	if f.RawLen != 0 {
 		l = f.RawLen
